@@ -80,7 +80,60 @@ def check_dofs(ctx, mc, rec, basis=None):
     if not check_dofs_structure(ctx, mesh, kind, mc.dim, elem, basis.dofs, rec, mc.desc):
         return basis
     check_doflocs(ctx, mc, rec, elem, basis)
+    check_split_indices(ctx, mc, rec, elem, basis)
     return basis
+
+
+def row_components(elem, rd, dim):
+    """Component of every row of element_dofs of a composite / vector element from the documented row order (vertex by
+    vertex, edge by edge in 3-D, facet by facet, interior; within an entity component by component - for ElementVector
+    the components alternate within the entity)."""
+    nedges = len(rd.edges) if dim == 3 else 0
+    nfac = rd.nfacets if dim >= 2 else 0
+    if hasattr(elem, "elems"):
+        cnt = [(e.nodal_dofs, e.edge_dofs if dim == 3 else 0, e.facet_dofs if dim >= 2 else 0, e.interior_dofs) for e in elem.elems]
+        block = lambda j: [c for c, n in enumerate(cnt) for _ in range(n[j])]
+    else:
+        nd = elem.dim
+        tot = (elem.nodal_dofs, elem.edge_dofs if dim == 3 else 0, elem.facet_dofs if dim >= 2 else 0, elem.interior_dofs)
+        block = lambda j: [i % nd for i in range(tot[j])]
+    return np.array(block(0) * rd.nnodes + block(1) * nedges + block(2) * nfac + block(3), dtype=int)
+
+
+def check_split_indices(ctx, mc, rec, elem, basis):
+    """split_indices(): one index set per component, a partition of 0..N-1 that agrees with the per-cell numbering."""
+    import skfem
+    if not isinstance(elem, (skfem.ElementComposite, skfem.ElementVector)) or mc.dim < 1:
+        return
+    if mc.dim == 1 and getattr(elem, "facet_dofs", 0):
+        return
+    ed = np.asarray(basis.dofs.element_dofs)
+    comp = row_components(elem, mc.mesh.elem.refdom, mc.dim)
+    if comp.size != ed.shape[0]:
+        ctx.drop("split-indices:row-model-does-not-apply")
+        return
+    tag = {"mesh": type(mc.mesh).__name__, "elem": rec.name, "desc": mc.desc}
+    try:
+        parts = [np.asarray(ix) for ix in basis.split_indices()]
+    except Exception as e:
+        ctx.check("split-indices-follow-the-numbering", False, mech="split-indices-raise:" + type(e).__name__, **tag)
+        return
+    ncomp = int(comp.max()) + 1
+    ok = len(parts) == ncomp
+    bad = None
+    if ok:
+        allix = np.concatenate(parts) if parts else np.zeros(0, dtype=int)
+        ok = allix.size == basis.N and np.array_equal(np.sort(allix), np.arange(basis.N))
+        if not ok:
+            bad = ("not-a-partition", int(allix.size), int(basis.N))
+        for c in range(ncomp):
+            want = np.unique(ed[comp == c])
+            if not np.array_equal(np.sort(parts[c]), want):
+                ok, bad = False, ("component", c, np.sort(parts[c])[:8].tolist(), want[:8].tolist())
+                break
+    ctx.check("split-indices-follow-the-numbering", ok, mech="split-indices:" + rec.name.split("(")[0], first_bad=bad,
+              n=len(parts), want_n=ncomp, **tag)
+    ctx.reached("split-indices")
 
 
 def check_dofs_structure(ctx, mesh, kind, dim, elem, dofs, rec, desc):
@@ -313,6 +366,11 @@ def check_doflocs(ctx, mc, rec, elem, basis):
                 X = np.where(nanmask, 0.0, X)
                 h = float(np.abs(np.asarray(mesh.p)).max() + 1)
                 multi = max(counts[1], counts[2]) > 1
+                if multi and mc.order == 1 and kind in ("tri", "tet") and not (np.diff(np.asarray(mesh.t), axis=0) > 0).all():
+                    # the caller's explicit choice (sort_t=False / oriented()): the library documents that elements whose
+                    # facet DOFs are ordered along the facet assume ascending cells (same reading as C03)
+                    ctx.drop("unsorted-simplices:location-of-several-dofs-per-facet-is-outside-the-claim")
+                    return basis
                 ctx.close("doflocs-agree", got, X, rtol=1e-12, scale=h,
                           mech=("multi-dof-facet-orientation:" + type(mesh).__name__) if multi else mk("doflocs"), **tag)
     return basis
@@ -600,6 +658,60 @@ def sum_values(fields):
     return out
 
 
+DERIVED_OPS = {"tri": ("oriented", "used-oriented", "mirrored", "used-mirrored", "restrict", "used-restrict", "adaptive",
+                       "used-adaptive", "uniform", "used-uniform", "unsorted", "used-elsewhere", "used-translated"),
+               "tet": ("oriented", "used-oriented", "adaptive", "used-adaptive", "restrict", "used-restrict", "uniform",
+                       "used-uniform", "used-elsewhere", "used-scaled"),
+               "quad": ("to_meshtri", "used-to_meshtri", "mirrored", "used-mirrored", "restrict", "used-restrict", "uniform",
+                        "used-uniform"),
+               "hex": ("to_meshtet", "used-to_meshtet", "restrict", "used-restrict", "uniform", "used-uniform")}
+
+
+def derived_mesh_case(ctx, k):
+    """"For every mesh": also the meshes the library returns from an operation on another mesh, in particular on a
+    parent whose facet and edge tables were already built (a basis had been made on it): the numbering must follow the
+    connectivity of the mesh it is asked for, not tables inherited from the parent.  Every operation in turn, with the
+    elements that have facet or edge DOFs."""
+    from . import c03
+    rng = ctx.rng()
+    kind = ("tri", "tet", "tri", "quad", "hex", "tet")[k % 6]
+    ops = DERIVED_OPS[kind]
+    op = ops[(k // 6) % len(ops)]
+    small = {"tri": 40, "quad": 16, "tet": 6 if "uniform" in op else 12, "hex": 3 if "uniform" in op else 8}[kind]
+    if kind == "tri" and "uniform" in op:
+        small = 20
+    for attempt in range(8):
+        mc = G.first_order(ctx.rng("mesh", attempt), kind)
+        if mc.mesh.t.shape[1] <= small:
+            break
+    else:
+        mc0 = mc
+        S = np.sort(rng.choice(mc0.mesh.t.shape[1], size=min(mc0.mesh.t.shape[1], small), replace=False))
+        p, t = G.clean(np.asarray(mc0.mesh.p), np.asarray(mc0.mesh.t)[:, S].astype(np.int64))
+        mc = G.MeshCase(type(mc0.mesh)(p, t), kind, 1, dict(mc0.desc, subset=True), affine_cells=mc0.affine_cells,
+                        planar_faces=mc0.planar_faces)
+    if op.startswith("used-") and k % 2:
+        import skfem
+        # "in use": a basis with facet (and edge) DOFs was built on the parent
+        pe = EL.by_name({"tri": "ElementTriP2", "quad": "ElementQuad2", "tet": "ElementTetP2", "hex": "ElementHex2"}[kind]).make()
+        skfem.CellBasis(mc.mesh, pe)
+    mc2 = c03.derived(ctx, rng, mc, op=op)
+    if mc2 is mc and op != "used-elsewhere":
+        raise Skip("derived-operation-not-applied")
+    kind2 = mc2.kind
+    recs = [r for r in EL.all_for_kind(kind2) if mesh_ok_for(r, mc2) and r.family != "global"]
+    ent = [r for r in recs if (r.make().facet_dofs or r.make().edge_dofs)]
+    chosen = [ent[(k // 6 + i * 7) % len(ent)] for i in range(ctx.scale(4, 6))] + [recs[int(rng.integers(len(recs)))]]
+    for rec in chosen:
+        basis = check_dofs(ctx, mc2, rec)
+        if rec.family in ("h1", "h1vec", "composite", "hdiv", "hcurl") and not rec.skeleton:
+            check_assembly(ctx, mc2, rec, basis, rng)
+    ctx.reached("derived-mesh")
+    if op.startswith("used-"):
+        ctx.reached("derived-from-a-parent-in-use")
+
+
+FAMILIES.append(Family("derived-meshes", derived_mesh_case, 6 * 13, 6 * 13 * 6))
 FAMILIES.append(Family("synthetic-counts", synthetic_counts, 36, 720))
 FAMILIES.append(Family("facet-sparsity", facet_sparsity, 16, 320))
 FAMILIES.append(Family("composite-basis", composite_basis_case, 24, 480))
@@ -607,4 +719,4 @@ FAMILIES.append(Family("periodic", periodic_case, 12, 240))
 FAMILIES.append(Family("registry", registry_complete, 1, 1))
 REQUIRED_REACH = ["rectangular-assembly", "periodic-topology", "composite-doflocs", "synthetic-dof-counts", "nested-wrappers",
                   "facet-basis-sparsity", "dof-locations-on-entities", "composite-basis-equal-dofnum",
-                  "composite-basis-of-facet-bases"]
+                  "composite-basis-of-facet-bases", "derived-mesh", "derived-from-a-parent-in-use", "split-indices"]
